@@ -32,8 +32,8 @@ import (
 // Monitors at the end, on the final catalog (all Property C04): ttl-clock:lost-update (a counter is below the
 // number of acknowledged increments, or the logged counter values are not 1..N in log order), ttl-clock:phantom-update
 // (above), ttl-clock:ack-lost (an acknowledged insert — of a client or of the insert phase — that cannot be expired
-// is gone and the change log has no delete event for it; with a delete event it is the expiry's business and judged by
-// the C19 monitors), ttl-clock:ack-not-logged / ttl-clock:logged-twice (not exactly
+// is gone and the change log has neither a delete event nor the insert event; otherwise it is the expiry's business and
+// judged by the C19 monitors), ttl-clock:ack-not-logged / ttl-clock:logged-twice (not exactly
 // one change-log event per acknowledged write; increments are identified by their token), ttl-clock:unacked-logged
 // (an aborted transaction left an event), ttl-clock:log-order (a write acknowledged before another one was issued
 // comes later in the log — this includes the program order of every goroutine), ttl-clock:txn-interleaved (the
@@ -73,6 +73,9 @@ type tcOp struct {
 }
 
 var errTcAbort = errors.New("abort on purpose")
+
+// errTcVanished: the counter document is gone (the document monitors say who took it); the goroutine stops.
+var errTcVanished = errors.New("the counter document vanished")
 
 func (s *tcScn) newOp(g, seq int, kind string) *tcOp {
 	op := &tcOp{g: g, seq: seq, kind: kind, start: time.Now()}
@@ -117,6 +120,9 @@ func (s *tcScn) inc(ctx context.Context, op *tcOp, i int) error {
 		bson.D{{Key: "$inc", Value: bson.D{{Key: "cnt", Value: int32(1)}}}, {Key: "$set", Value: bson.D{{Key: "last", Value: token}}}})
 	if err != nil {
 		return err
+	}
+	if res.MatchedCount == 0 {
+		return errTcVanished
 	}
 	if res.MatchedCount != 1 || res.ModifiedCount != 1 {
 		return fmt.Errorf("increment of %s.%s %s matched %d, modified %d", c.h[0], c.h[1], id, res.MatchedCount, res.ModifiedCount)
@@ -163,6 +169,10 @@ func (s *tcScn) clientInsert(ctx context.Context, op *tcOp, variant int) (immune
 }
 
 func (s *tcScn) clientFailed(op *tcOp, err error) {
+	if errors.Is(err, errTcVanished) {
+		s.tag("own-document-vanished")
+		return
+	}
 	s.violP("C04", "ttl-clock:write-failed", "a client write failed although nothing can conflict with it", fmt.Sprintf("goroutine %d op %d (%s): %v", op.g, op.seq, op.kind, err))
 }
 
